@@ -67,17 +67,20 @@ def run(ctx):
     if not ctx.go_build(pkg="c03", out_name="c05"):
         return
     ctx.diff_stream("reconn", ctx.n(1500, 40000), oracle=c03check.oracle)
-    g = os.path.join(ctx.work, "reconn.gen.ops")
-    if os.path.exists(g):
-        out = g + ".verdict"
-        rc, log = ctx.harness("oracle", "reconn", g, out)
-        if rc == 0 and os.path.exists(out):
-            vs = ctx.read_lines(out)
-            ctx.count("oracle.reconn.cases", len(vs))
-            if any(v.startswith("FAIL") for v in vs):
-                found = c03check.oracle(ctx, "reconn", ["case 0 reconn"], None)
-                if found:
-                    ctx.violation(found[0], found[1], found[2], True)
+    # ztunnel reconnects with initial_resource_versions against the REAL workload generator
+    ctx.diff_stream("wds", ctx.n(1000, 30000), oracle=c03check.oracle)
+    for stream in ("reconn", "wds"):
+        g = os.path.join(ctx.work, "%s.gen.ops" % stream)
+        if os.path.exists(g):
+            out = g + ".verdict"
+            rc, log = ctx.harness("oracle", stream, g, out)
+            if rc == 0 and os.path.exists(out):
+                vs = ctx.read_lines(out)
+                ctx.count("oracle.%s.cases" % stream, len(vs))
+                if any(v.startswith("FAIL") for v in vs):
+                    found = c03check.oracle(ctx, stream, ["case 0 %s" % stream], None)
+                    if found:
+                        ctx.violation(found[0], found[1], found[2], True)
     if os.path.isdir(os.path.join(os.path.dirname(os.path.dirname(os.path.abspath(__file__))), "harness", "e2e", "READY")) or \
             os.path.exists(os.path.join(os.path.dirname(os.path.dirname(os.path.abspath(__file__))), "harness", "e2e", "READY")):
         if ctx.go_build(pkg="e2e"):
